@@ -449,7 +449,7 @@ class Program:
         if getattr(self, "_normalised", False):
             return
         self._normalised = True
-        from .inline import _attr_alias_candidates, expand_attribute_aliases, inline_new_constants, new_constants, alpha_normalise, expand_condition_locals, inline_new_temps, inlined, loops_from_filtered_generators, loops_from_quantifiers, outline_reference_temps, split_conditional_expressions
+        from .inline import flags_to_breaks, _attr_alias_candidates, expand_attribute_aliases, inline_new_constants, new_constants, alpha_normalise, expand_condition_locals, inline_new_temps, inlined, loops_from_filtered_generators, loops_from_quantifiers, outline_reference_temps, split_conditional_expressions
         anchor_names = frozenset(anchor_names)
         self.inline_anchors = anchor_names
 
@@ -485,6 +485,7 @@ class Program:
             nf = inline_new_constants(nf, gl, ca)
             nf = split_conditional_expressions(nf)
             nf = loops_from_quantifiers(nf)
+            nf = flags_to_breaks(nf)
             nf, ren = alpha_normalise(nf, tab)
             keep = set(tab.get(f.qual, {}).get("keys", {}).values())
             if f.qual in tab:
@@ -774,6 +775,11 @@ class Program:
                 ):
                     try:
                         return getattr(recv, fn.attr)(*args, **kwargs)
+                    except Exception as e:
+                        raise NotConst(str(e))
+                if isinstance(recv, (frozenset, set)) and fn.attr in ("difference", "union", "intersection", "symmetric_difference", "copy"):
+                    try:
+                        return frozenset(getattr(frozenset(recv), fn.attr)(*[frozenset(a) if isinstance(a, (list, tuple, set, frozenset)) else a for a in args]))
                     except Exception as e:
                         raise NotConst(str(e))
             if isinstance(fn, ast.Name):
